@@ -76,6 +76,14 @@ def check(run):
             nxt = blk[blk.index(u) + 1] if blk and blk.index(u) + 1 < len(blk) else None
             ok = isinstance(nxt, ast.If) and isinstance(nxt.test, ast.Compare) and {dotted(nxt.test.left), dotted(nxt.test.comparators[0])} == {ck, "key"} \
                 and isinstance(nxt.test.ops[0], (ast.Eq, ast.NotEq))
+            # inside a scan loop nothing may touch the entry before it is known to belong to the key
+            early = [unparse(st) for st in blk[:blk.index(u)]] if blk is not None and isinstance(p, (ast.For, ast.While)) else []
+            if ok and early:
+                ok = False
+                run.ob("C24.R3", "%s:entry-used-before-range-test:%d" % (f.fq, uses.index(u)), False, run.site(f, u),
+                       "`%s` runs on the entry under the cursor before its key is compared with the requested key: the first entry of the "
+                       "next key is matched / deleted / counted as if it belonged to this key" % early[0].split("\n")[0])
+                continue
             run.ob("C24.R3", "%s:foreign-key-guard:%d" % (f.fq, uses.index(u)), ok, run.site(f, u),
                    "" if ok else "the entry under the cursor is used without comparing its unsuffixed key with the requested key: an entry of "
                    "another key is returned / deleted / counted")
@@ -134,6 +142,8 @@ def _anc(n):
 
 
 MUTANTS = [
+    Mutant("remioset-match-before-range-test", DU, "Duror.remIoSetVal", "                    ckey, cion = self.unsuffix(iokey, sep=sep)\n                    if ckey != key:  # prev entry if any was the last entry for key\n                        break  # done\n                    if val == cval:\n                        return cursor.delete()  # delete also moves to next so doubly moved\n",
+           "                    if val == cval:\n                        return cursor.delete()  # delete also moves to next so doubly moved\n                    ckey, cion = self.unsuffix(iokey, sep=sep)\n                    if ckey != key:  # prev entry if any was the last entry for key\n                        break  # done\n", {"C24.R3"}),
     Mutant("ordinal-by-count", DU, "Duror.addIoVal", "ion = cion + 1  # next ion is increment of found cion", "ion += 1", {"C24.R5"}),
     Mutant("reintroduce-add-no-sep", DU, "IoSuber.add", ",\n                                    sep=self.ionsep))", "))", {"C24.R1"}, canary=True),
     Mutant("reintroduce-pop-no-sep", DU, "IoSetSuber.pop", ",\n                               sep=self.ionsep)", ")", {"C24.R1"}),
